@@ -120,7 +120,9 @@ func (vm *Vm) Run(ctx context.Context, b []byte) ([]byte, error) {
 	logg.Tracef("new vm run")
 	running := true
 	vm.last = ""
+	defer func() { vm.verifStep("exit", b) }()
 	for running {
+		vm.verifStep("top", b)
 		r := vm.st.MatchFlag(state.FLAG_TERMINATE, true)
 		if r {
 			logg.InfoCtxf(ctx, "terminate set! bailing")
